@@ -7,6 +7,8 @@ usage: rust2coq.py --repo <lasso checkout> --out <dir> [--only keys|arena|lockfr
   arena     src/arenas/bucket.rs, single_threaded.rs      -> <out>/ArenaGen.v     (lower_arena.py)
   lockfree  src/arenas/lockfree.rs                        -> <out>/LockfreeGen.v       (lower_lockfree.py)
             src/arenas/atomic_bucket.rs                   -> <out>/AtomicBucketGen.v   (lower_atomic_bucket.py)
+  rodeo     src/rodeo.rs                                  -> <out>/RodeoGen.v          (lower_rodeo.py)
+  threaded  src/threaded_rodeo.rs                         -> <out>/ThreadedGen.v       (lower_threaded.py)
 
 Whenever the source leaves the subset the translator understands it prints
     LOST: <file>:<line>: <what>
@@ -40,7 +42,18 @@ def do_lockfree(repo, out):
     lower_atomic_bucket.run(repo, out)
 
 
-PARTS = {"keys": (do_keys, "src/keys.rs"), "arena": (do_arena, "src/arenas"), "lockfree": (do_lockfree, "src/arenas")}
+def do_rodeo(repo, out):
+    import lower_rodeo
+    lower_rodeo.run(repo, out)
+
+
+def do_threaded(repo, out):
+    import lower_threaded
+    lower_threaded.run(repo, out)
+
+
+PARTS = {"threaded": (do_threaded, "src/threaded_rodeo.rs"), "keys": (do_keys, "src/keys.rs"), "arena": (do_arena, "src/arenas"), "lockfree": (do_lockfree, "src/arenas"),
+         "rodeo": (do_rodeo, "src/rodeo.rs")}
 
 
 def main():
